@@ -41,7 +41,7 @@ LEVEL = "fault_enumeration"
 
 
 def plan(tier, seed):
-    n = 2 if tier == "quick" else 12
+    n = 5 if tier == "quick" else 20
     shards = [dict(seed=seed, shard=i, n=n, kind="slow", tier=tier)
               for i in range(8)]
     shards += [dict(seed=seed, shard=20 + i, n=max(1, n // 2), kind="fast",
